@@ -305,7 +305,8 @@ def confValid : List (Nat × Int) → Bool
   | (c, cap) :: rest => decide (0 < cap) && !(rest.any (fun x => x.1 == c)) && confValid rest
 
 def createPromoter (s : State) (m : PromoterMsg) : Except Err State :=
-  if !m.tv then .error .ticket
+  if m.creator = POOL then .error .env      -- a module account has no key and signs nothing
+  else if !m.tv then .error .ticket
   else if (getP s.promoters m.uid).isSome then .error .dup
   else if !m.uidOk || !confValid m.conf then .error .validate
   else .ok { s with
@@ -642,7 +643,8 @@ def distribute (time : Nat) (bank : Bank) (subs : List Sub) (receiver : Nat) (a 
   | .error e => .error e
   | .ok (b1, subs1) =>
     if 0 < a.main then
-      match send b1 POOL receiver a.main with
+      if receiver = POOL then .error .distribute   -- SendCoinsFromModuleToAccount: blocked recipient
+      else match send b1 POOL receiver a.main with
       | .error _ => .error .distribute
       | .ok b2 => .ok (b2, subs1)
     else .ok (b1, subs1)
